@@ -82,8 +82,9 @@ class P(Prop):
 
     def gen_case(self):
         rng = self.rng
-        return gen.circuit(rng, n_in=(1, 4), n_gates=(1, 8), max_arity=4, consts=0.25, dead=False,
-                           adversarial=rng.choice([0.0, 0.0, 0.4]), out_inputs=0.1)
+        c = gen.circuit(rng, n_in=(1, 4), n_gates=(1, 8), max_arity=4, consts=0.25, dead=False,
+                        adversarial=rng.choice([0.0, 0.0, 0.4]), out_inputs=0.1)
+        return gen.mangling_twins(rng, c)
 
     def correspond(self, n):
         drv = self.driver()
